@@ -92,7 +92,10 @@ impl<'a, F> DataFrameEmitter<'a, F> where F: FnMut(Box<[u8]>) {
         }
 
         let frame_id = self.frame_queue.next_id();
+        #[cfg(not(feature = "verif"))]
         let nonce = rand::random();
+        #[cfg(feature = "verif")]
+        let nonce = crate::verif::rng::random_bool();
 
         let mut next_frame = InProgressDataFrame {
             fbuilder: DataFrameBuilder::new(frame_id, nonce),
